@@ -4,14 +4,23 @@ from bounded import parse_drv
 
 
 def run(tier, seed):
-    res = PropertyResult('C11', 'exploration',
-                         'Bounded round-trip contract with spec-side printers (the LALR machinery is outside the VC generator): generated flat netlists are printed as Verilog '
+    res = PropertyResult('C11', 'other',
+                         'Tier P (unbounded, one construction step): BenchTransformer.assignment -- what one statement name = TYPE(d_1..d_m) adds -- on the object heap of C09 with '
+                         'Node(..) / Line(..) / get_or_add_fork inlined from circuit.py: from any well-formed circuit whose drivers are forks, a new cell of that name and type is registered, '
+                         'its output drives the fork of the same name (created on demand), input pin p is driven by driver p for every p < m, every earlier line and node is untouched, '
+                         'well-formedness holds again. The grammar, the Verilog transformer and techlib pin tables are bounded: bounded round-trip contract with spec-side printers (the LALR machinery is outside the VC generator): generated flat netlists are printed as Verilog '
                          '(many renderings) and as bench text; the parsed circuit must have the ports in port-list order with bus bits in declared range order and must observe, '
                          'for ALL input / state valuations (enumerated), exactly the values of the ghost netlist at every output and flip-flop input -- before and after '
                          'resolve_tlib_cells, with and without branch forks (which may only insert 1:1 forks) -- and the bench and Verilog renderings of one netlist agree.')
+    try:
+        from contracts import bench_c
+        from pyvc.verify import verify
+        res.report = verify(bench_c.targets(), timeout_s=30 if tier == 'quick' else 120)
+    except ImportError:
+        res.report = None
     res.bounded = [parse_drv.verilog_part(tier, seed), parse_drv.bench_part(tier, seed)]
-    res.assumptions = ['bounded over netlists / renderings, complete over valuations (enumeration <= 2^10)',
+    res.assumptions = ['names and cell types are opaque tokens in the proved step; the cell type is not the reserved fork kind; no cell of the same name exists yet (bench: one assignment per signal)', 'GrowingList.free_index by an assumed contract', 'bounded over netlists / renderings, complete over valuations (enumeration <= 2^10)',
                        'the meaning of a parsed circuit is judged by the spec evaluator (spec.evaln + instance semantics); C01 ties the simulators to it',
                        'datasheet functions of the family cells (spec.datasheet) are the oracle for instances']
-    res.trusted_base = ['bounded/parse_drv.py', 'bounded/netlist_gen.py', 'spec/evaln.py, spec/datasheet.py']
+    res.trusted_base = ['pyvc', 'z3 5.1.0', 'bounded/parse_drv.py', 'bounded/netlist_gen.py', 'spec/evaln.py, spec/datasheet.py']
     return res
